@@ -524,6 +524,10 @@ def reconfigure_cases(draw):
             case["shared"] = "late"
         elif steps[0] == "no-trees" or "use-shared" in steps[:3]:
             case["shared"] = case["shared"] or True
+    if case["shared"] == "late" and "use-shared" not in steps[:2] and \
+            draw(st.booleans()):
+        # the empty shared repository is there to be moved into
+        steps.insert(draw(st.sampled_from([0, 0, 1])), "use-shared")
     case["action"] = {"kind": "reconfigure", "steps": steps[:6],
                       "parent_behind": draw(st.sampled_from(
                           [False, False, False, True]))}
@@ -531,21 +535,6 @@ def reconfigure_cases(draw):
 
 
 def run(case, env):
-    import json, time  # TEMP-DEBUG
-    fn = "/dev/shm/ap-probe/c52-last-%d.json" % os.getpid()  # TEMP-DEBUG
-    with open(fn, "w") as f:  # TEMP-DEBUG
-        json.dump(case, f)  # TEMP-DEBUG
-    t0 = time.time()  # TEMP-DEBUG
-    try:  # TEMP-DEBUG
-        return run_(case, env)  # TEMP-DEBUG
-    finally:  # TEMP-DEBUG
-        if time.time() - t0 < 15:  # TEMP-DEBUG
-            os.unlink(fn)  # TEMP-DEBUG
-        else:  # TEMP-DEBUG
-            os.rename(fn, fn + ".slow")  # TEMP-DEBUG
-
-
-def run_(case, env):
     if case["action"]["kind"] == "upgrade":
         return run_upgrade(case, env)
     return run_reconfigure(case, env)
